@@ -990,6 +990,7 @@ class SourceFinder(object):
         for j in range(int(model["components"].value)):
             src_flags = is_flag
             source = ComponentSource()
+            source.galactic = global_data.galactic
             source.island = isle_num
             source.source = j
             self.log.debug(" component {0}".format(j))
@@ -1102,6 +1103,7 @@ class SourceFinder(object):
             self.log.debug("- island shape is {0}".format(kappa_sigma.shape))
 
             source = IslandSource()
+            source.galactic = global_data.galactic
             source.flags = 0
             source.island = isle_num
             source.components = j + 1
@@ -1378,9 +1380,10 @@ class SourceFinder(object):
         self.global_data.dobias = False
 
         # check if the WCS is galactic
+        self.global_data.galactic = False
         if "lon" in self.global_data.header["CTYPE1"].lower():
             self.log.info("Galactic coordinates detected and noted")
-            SimpleSource.galactic = True
+            self.global_data.galactic = True
         return
 
     def save_background_files(
